@@ -92,11 +92,11 @@ func (c *Ctx) CheckerFail(rule, what string) {
 	c.add(rule, "checker:"+what, token.NoPos, "violation", "checker failure (fail closed): "+what, []string{"kind=checker"})
 }
 
-func (c *Ctx) Fn(name string)                 { c.Funcs[name] = true }
-func (c *Ctx) Rule(text string)               { c.RuleText = append(c.RuleText, text) }
-func (c *Ctx) NotCovered(text string)         { c.NotCov = append(c.NotCov, text) }
-func (c *Ctx) Trust(text string)              { c.Trusted = append(c.Trusted, text) }
-func (c *Ctx) Assumption(text string)         { c.Assume = append(c.Assume, text) }
+func (c *Ctx) Fn(name string)         { c.Funcs[name] = true }
+func (c *Ctx) Rule(text string)       { c.RuleText = append(c.RuleText, text) }
+func (c *Ctx) NotCovered(text string) { c.NotCov = append(c.NotCov, text) }
+func (c *Ctx) Trust(text string)      { c.Trusted = append(c.Trusted, text) }
+func (c *Ctx) Assumption(text string) { c.Assume = append(c.Assume, text) }
 func (c *Ctx) Floor(rule string, got, min int, reason string) {
 	c.Floors = append(c.Floors, fmt.Sprintf("%s: %d >= %d (%s)", rule, got, min, reason))
 	if got < min {
@@ -244,24 +244,24 @@ func (c *Ctx) finish(verifDir string, seed int, start time.Time, loadNote string
 		return x
 	}
 	cov := map[string]any{
-		"explanation":         expl,
-		"obligations":         len(c.Obligs),
-		"discharged":          nOK,
-		"known_findings":      nKnown,
-		"undecided":           nUndec,
-		"evaluations":         len(c.Obligs),
-		"distinct_nontrivial": len(distinct),
-		"rule":                "every obligation is one (rule, construct) pair enumerated from /repo's current source; distinct = distinct rule@construct keys; all are non-trivial in that each names a concrete construct the rule had to decide",
-		"samples":             samples,
+		"explanation":          expl,
+		"obligations":          len(c.Obligs),
+		"discharged":           nOK,
+		"known_findings":       nKnown,
+		"undecided":            nUndec,
+		"evaluations":          len(c.Obligs),
+		"distinct_nontrivial":  len(distinct),
+		"rule":                 "every obligation is one (rule, construct) pair enumerated from /repo's current source; distinct = distinct rule@construct keys; all are non-trivial in that each names a concrete construct the rule had to decide",
+		"samples":              samples,
 		"obligations_per_rule": ruleNames,
-		"functions_analysed":  funcs,
-		"functions_count":     len(funcs),
-		"call_sites":          c.Sites,
-		"floors":              nn(c.Floors),
-		"trusted_base":        nn(c.Trusted),
-		"exhaustive":          true,
-		"load":                loadNote,
-		"checker_cmd":         fmt.Sprintf("/verif/check %s %s", c.Prop, c.Tier),
+		"functions_analysed":   funcs,
+		"functions_count":      len(funcs),
+		"call_sites":           c.Sites,
+		"floors":               nn(c.Floors),
+		"trusted_base":         nn(c.Trusted),
+		"exhaustive":           true,
+		"load":                 loadNote,
+		"checker_cmd":          fmt.Sprintf("/verif/check %s %s", c.Prop, c.Tier),
 	}
 	ev := evidence{PropertyID: c.Prop, Tier: c.Tier, Seed: seed, Level: "other", Coverage: cov,
 		Assumptions: append([]string{}, c.Assume...), WallS: time.Since(start).Seconds(), Violations: nViol}
